@@ -6,11 +6,72 @@ budget = wall-clock cap per worker in seconds (a watchdog, not the normal stop c
 
 REAL_ALL = "onflow/crypto Go and C code of the scratch copy of /repo's working tree (unmodified for the network engines)"
 
+DKG_REAL = ["NewFeldmanVSS / NewFeldmanVSSQual / NewJointFeldman instances of every participant incl. the C layer (real code, unmodified)",
+            "Byzantine participants are real instances too; only their OUTPUT is mutated",
+            "BLS Sign / BLSReconstructThresholdSignature / Verify / Aggregate-/RemoveBLSPublicKeys used by the key-consistency oracles (trusted base)"]
+DKG_STUB = ["transport: private channels + reliable broadcast (DKGProcessor implemented by the simulator)", "round clock: NextTimeout/End are called by the simulated timers",
+            "Byzantine output mutator and injector", "harness math/big arithmetic for points outside G2 / scalars >= r", "ForceDisqualify issued by the simulator as the 'external' decision"]
+DKG_ASSUME = ["reliable authenticated channels: an honest message is delivered exactly once to each addressee within its round; loss, duplication and lateness exist only as Byzantine behaviour",
+              "reliable broadcast: every receiver gets the same bytes of a broadcast, broadcasts of one sender are FIFO and land in the same round everywhere",
+              "at most t Byzantine participants and at least t+1 honest ones",
+              "curve arithmetic, signing and verification of the library are trusted by the key-consistency oracles (properties C01/C04/C12 are not decidable by this technique)"]
+PROTO_RULE = ("each run draws protocol, n, t, the Byzantine set (<= t, anywhere), the dealer, a fault budget, unsolicited-action scripts per round, a delivery strategy and "
+              "all delivery/timer interleavings from the choice stream; legal events are: start a node, deliver a pending message of round r to a node in round r (broadcasts of one "
+              "sender FIFO), inject the next Byzantine action, fire the timer of a node once nothing of its round is pending anywhere. A run is non-trivial if a fault fired or a "
+              "non-default scheduling decision was taken; distinct = distinct hash of (configuration, per-delivery (receiver, kind, fault label, round), timer order)")
+
 ENGINE_INFO = {
+    "dkgsim": "n real DKG instances over a simulated transport with round timers, Byzantine mutator/injector (proto mode) and arbitrary call histories (chaos mode)",
     "prgcrash": "consumer process + simulated checkpoint disk with crash/restart and write faults",
 }
 
 CHECKS = {
+    "C07": {
+        "batches": [
+            {"engine": "dkgsim", "mode": "", "runs": {"quick": 40000, "thorough": 700000}, "budget": {"quick": 75, "thorough": 1500}},
+            {"engine": "dkgsim", "mode": "big", "runs": {"quick": 0, "thorough": 160}, "budget": {"quick": 0, "thorough": 1500}, "det": False},
+        ],
+        "rule": PROTO_RULE, "time_unit": "protocol rounds (3 per run), timer events and message deliveries",
+        "real": DKG_REAL, "stub": DKG_STUB, "assumptions": DKG_ASSUME,
+        "expected_probes": ["dkg_succeeded", "dkg_failed", "jf_failed", "honest_complaint", "threshold_signature_checked", "groupkey_recomputed_from_vectors", "exactly_t_complaints", "t_plus_1_complaints", "vector_late", "vector_malformed_first"],
+    },
+    "C08": {
+        "batches": [
+            {"engine": "dkgsim", "mode": "", "runs": {"quick": 40000, "thorough": 700000}, "budget": {"quick": 60, "thorough": 1500}},
+            {"engine": "dkgsim", "mode": "fvss", "runs": {"quick": 20000, "thorough": 300000}, "budget": {"quick": 30, "thorough": 900}},
+        ],
+        "rule": PROTO_RULE + "; mode fvss = plain Feldman VSS worlds only (every order of vector and share deliveries, every malformation kind)",
+        "time_unit": "protocol rounds (3 per run), timer events and message deliveries",
+        "real": DKG_REAL, "stub": DKG_STUB,
+        "assumptions": DKG_ASSUME + ["must-disqualify expectations are derived from the mutator's labels (which polynomial a vector/share/answer belongs to), never by recomputing curve points"],
+        "expected_probes": ["must_disqualify", "fvss_failed", "fvss_keys", "fault_free_run_succeeded", "honest_complaint"],
+    },
+    "C09": {
+        "batches": [
+            {"engine": "dkgsim", "mode": "chaos", "runs": {"quick": 150000, "thorough": 3000000}, "budget": {"quick": 60, "thorough": 1500}},
+        ],
+        "rule": ("chaos mode: each run draws protocol, n<=5, t, dealer and a weighted mix of API calls (swarm), then 8..68 (thorough ..158) calls on live instances: deliveries of real messages to nodes in any "
+                 "phase, Start, Start with a too short seed, NextTimeout, End, ForceDisqualify with in/out-of-range indices, handlers with unauthenticated origins {-1,n,255,256,2^31-1,-2^31} "
+                 "and raw payloads (mutated real messages, length/tag grammar 0,1,2,exact-1,exact,exact+1,10kB, points outside G2, x>=p). Every call runs under recover. Non-trivial = at least one "
+                 "rejected or faulty call; distinct = distinct hash of the (action kind, model phase) sequence"),
+        "time_unit": "API calls on DKG instances",
+        "real": DKG_REAL, "stub": ["scheduler of API calls", "payload grammar"],
+        "assumptions": ["SCOPE: only the history-dependent surfaces of C09 (DKG handlers, lifecycle calls, ForceDisqualify; the stateful threshold inspector is covered by the thrnet batch once registered); stateless decoders/constructors are pure-input questions and are not claimed",
+                        "cgo calls are atomic; out-of-bounds accesses inside C are only visible in the thorough tier's ASan build"],
+        "expected_probes": [],
+    },
+    "C10": {
+        "batches": [
+            {"engine": "dkgsim", "mode": "chaos", "runs": {"quick": 150000, "thorough": 3000000}, "budget": {"quick": 60, "thorough": 1500}},
+        ],
+        "rule": ("chaos mode (see C09) with the lifecycle oracles: a reference state machine {idle, running(k timeouts), ended} predicts the error class of every call and Running(); "
+                 "differential twin: every run with at least one rejected call is executed a second time from the same choice log with the rejected calls left out, and all emitted "
+                 "messages, callbacks, error classes and End results must be identical. Non-trivial = at least one rejected call; distinct = distinct hash of the (action, phase, timeouts) sequence"),
+        "time_unit": "API calls on DKG instances",
+        "real": DKG_REAL, "stub": ["scheduler of API calls", "reference state machine (40 lines)", "twin execution"],
+        "assumptions": ["restarting an instance after an accepted End is outside the quantifier and never generated", "Start with an invalid seed is not modelled (only C09 generates it)"],
+        "expected_probes": ["twin_runs"],
+    },
     "C14": {
         "batches": [
             {"engine": "prgcrash", "mode": "", "runs": {"quick": 40000, "thorough": 1500000},
